@@ -42,24 +42,37 @@ class NcpState:
         self.joined = False
         self.sec = None  # EmberInitialSecurityState as dict
         self.sec_log = []
-        self.nwk_fc = 0
-        self.aps_fc = 0
+        self.nwk_fc = 0x00012345  # left over from whatever network the stick was on before: the stack does not reset it on leave
+        self.aps_fc = 0x00000777
         self.keys = [None] * key_slots  # (partner, key)
         self.children = [None] * child_slots  # (eui64, nwk, type)
         self.addr = [None] * addr_slots
         self.config = {CFG_KEY_SIZE: key_slots, CFG_ADDR_SIZE: addr_slots, CFG_SEC_LEVEL: 5}
         self.values = {}
+        self.boots = 0
+        self.active_eui = None
         self.refuse_partners = []  # link keys for these partner addresses are refused by the NCP
         self.events = []  # (name, values-by-name) to emit after the response
         self.log = []
+        self.boot()
 
     # ------------------------------------------------------------------ helpers
-    def eui(self):
+    def stored_eui(self):
+        """What the tokens say (takes effect at the next boot)."""
         if self.nv3_eui is not None:
             return list(self.nv3_eui)
         if self.mfg_custom != FF8:
             return list(self.mfg_custom)
         return list(self.factory_eui)
+
+    def boot(self):
+        """The NCP (re)starts: tokens are read, the stack is down until networkInit."""
+        self.active_eui = self.stored_eui()
+        self.joined = False
+        self.boots += 1
+
+    def eui(self):
+        return list(self.active_eui)
 
     def _key_struct(self, kind):
         s = self.sec
